@@ -521,6 +521,10 @@ def run(ctx):
     reverse_rules(ctx, r6)
     reverse_graph(ctx, r6)
     shared.requires_read_with_defaults(ctx, r6)
+    from mstatic.rules import completion
+    r12 = ctx.rule('R12', 'a completed task records every task it routes '
+                   'to (the join verdict reads that record)', 'AGREE')
+    completion.task_complete_followup(ctx, r12)
 
     # ---- R8 the execution cache covers what is looked up -----------------------
     r8 = ctx.rule('R8', 'the task-execution cache is loaded for the spec '
